@@ -63,21 +63,30 @@ func parseCfg(w []string) (caseCfg, bool) {
 			break
 		}
 		p := strings.Split(s, ",")
+		parent := func(x string) (int, bool) {
+			if x == "-" {
+				return -1, true
+			}
+			pp, err := strconv.Atoi(x)
+			if err != nil || pp < 0 || pp >= i {
+				return 0, false
+			}
+			return pp, true
+		}
 		switch {
 		case len(p) == 1 && p[0] == "f":
 			c.quotas = append(c.quotas, qspec{parent: -1})
+		case len(p) == 2 && p[0] == "f": // fixed-window internal limit under quota p[1]
+			par, ok := parent(p[1])
+			if !ok || par < 0 {
+				return c, false
+			}
+			c.quotas = append(c.quotas, qspec{parent: par})
 		case len(p) == 4 && p[0] == "c":
 			mx, e1 := strconv.ParseInt(p[1], 10, 64)
 			ex, e2 := strconv.ParseInt(p[2], 10, 64)
-			par := -1
-			if p[3] != "-" {
-				pp, e3 := strconv.Atoi(p[3])
-				if e3 != nil || pp < 0 || pp >= i || !c.quotas[pp].conc {
-					return c, false
-				}
-				par = pp
-			}
-			if e1 != nil || e2 != nil || mx < 0 || ex <= 0 {
+			par, ok := parent(p[3])
+			if !ok || e1 != nil || e2 != nil || mx < 0 || ex <= 0 {
 				return c, false
 			}
 			c.quotas = append(c.quotas, qspec{conc: true, max: mx, expSec: ex, parent: par})
